@@ -58,6 +58,8 @@ type Own struct {
 	Writes map[*ssa.Function][]Write // per top-level function, including its closures
 	mut    map[*ssa.Function]map[int]string
 	done   bool
+
+	rootCache map[ssa.Value]map[*ssa.Parameter]bool
 }
 
 func (p *Prog) Own() *Own {
@@ -113,6 +115,18 @@ func (o *Own) collectWrites() {
 // rootsOf: parameters of the top-level function that v may derive from (any strictness), plus
 // whether something was lost.
 func (o *Own) rootsOf(v ssa.Value) (map[*ssa.Parameter]bool, []string) {
+	if c, ok := o.rootCache[v]; ok {
+		return c, nil
+	}
+	r, u := o.rootsOfUncached(v)
+	if o.rootCache == nil {
+		o.rootCache = map[ssa.Value]map[*ssa.Parameter]bool{}
+	}
+	o.rootCache[v] = r
+	return r, u
+}
+
+func (o *Own) rootsOfUncached(v ssa.Value) (map[*ssa.Parameter]bool, []string) {
 	roots := map[*ssa.Parameter]bool{}
 	var unknown []string
 	var walk func(ds []Deriv)
